@@ -194,14 +194,34 @@ class PreprocessorHexagon:
 
     @staticmethod
     def replace_do_while_0(code: str) -> str:
-        m = re.search(r"(.*)do\s*\{(.*)}\s*while\s*\(0\)(.*)", code)
-        if not m:
+        """Replaces every `do { X } while (0)` with X. The closing bracket is searched by counting,
+        so loops like `do { Y } while (i < 3)` within X, or after it, stay untouched."""
+        changed = False
+        pos = 0
+        while True:
+            m = re.compile(r"\bdo\s*\{").search(code, pos)
+            if not m:
+                break
+            depth = 0
+            end = -1
+            for i in range(m.end() - 1, len(code)):
+                if code[i] == "{":
+                    depth += 1
+                elif code[i] == "}":
+                    depth -= 1
+                    if depth == 0:
+                        end = i
+                        break
+            tail = re.match(r"\s*while\s*\(0\)", code[end + 1 :]) if end >= 0 else None
+            if not tail:
+                pos = m.end()
+                continue
+            code = code[: m.start()] + code[m.end() : end] + code[end + 1 + tail.end() :]
+            pos = m.start()
+            changed = True
+        if not changed:
             return code
-        tmp = ""
-        while m:
-            tmp = m.group(1) + m.group(2) + m.group(3)
-            m = re.search(r"(.*)do\s*\{(.*)}\s*while\s*\(0\)(.*)", tmp)
-        return tmp + "\n"
+        return code.rstrip("\n") + "\n"
 
     def postprocess_shortcode(self):
         self.remove_onetime_do_whiles()
